@@ -138,7 +138,7 @@ def run(check):
                 check.violation("the repaired class %s (fix %s) has returned: rename_all %s on %s %r gives %s, serde_derive gives %s"
                                 % (kid, commit, rule, pos, s_, got, want),
                                 case={"position": pos, "rule": rule, "ident": s_}, impl=got, model=want, failing_input=True)
-    if not check.violations:
+    if not check.has_failing():
         ident_part(check, impl_serde)
     n_div = sum(1 for (rule, s_), got in impl_ts.items() if rule in RULES
                 for pos in ("field", "variant") if "panic" not in impl_serde[(pos, rule, s_)] and got != impl_serde[(pos, rule, s_)])
@@ -177,7 +177,13 @@ def ident_part(check, impl_serde):
             {"kind": "struct", "attrs": ts + ra, "ident": "S", "generics": [],
              "fields": ("named", [field([], w, t_path("u8")) for w in fields])},
             {"kind": "enum", "attrs": ts + ra, "ident": "E", "generics": [],
-             "variants": [{"attrs": [], "ident": w, "fields": ("unit",)} for w in variants]}]}
+             "variants": [{"attrs": [], "ident": w, "fields": ("unit",)} for w in variants]},
+            # struct-variant fields follow the *variant's* rule; an enum-wide `rename_all_fields` (which typeshare does not read) of
+            # another rule must not displace it
+            {"kind": "enum", "attrs": ts + [m_list("serde", [m_nv("tag", lit_s("t")), m_nv("content", lit_s("c")),
+                                                              m_nv("rename_all_fields", lit_s("SCREAMING-KEBAB-CASE" if rule != "SCREAMING-KEBAB-CASE" else "camelCase"))])],
+             "ident": "F", "generics": [],
+             "variants": [{"attrs": list(ra), "ident": "Sv", "fields": ("named", [field([], w, t_path("u8")) for w in fields])}]}]}
         m, r, text = l1.requests(f, Gen(check.rng))
         reqs.append((m, r))
         meta.append((rule, text))
@@ -200,10 +206,16 @@ def ident_part(check, impl_serde):
             for w, fl in zip(fields, st["fields"]):
                 got[("field", w)] = fl["id"]["r"]
         for en in d.get("enums", []):
+            if en["id"]["o"] == "F":
+                if rule:
+                    for w, fl in zip(fields, en["variants"][0].get("fields", [])):
+                        got[("field", w + " (struct-variant field, enum has rename_all_fields)")] = fl["id"]["r"]
+                continue
             for w, v in zip(variants, en["variants"]):
                 got[("variant", w)] = v["id"]["r"]
         for (pos, w), g in sorted(got.items()):
-            exp = want[(rule, pos, w)].get("ok") if rule else w.replace("r#", "")
+            w0 = w.split(" (")[0]
+            exp = want[(rule, pos, w0)].get("ok") if rule else w0.replace("r#", "")
             if exp is not None and g != exp:
                 check.violation("rename_all %s on %s `%s`: typeshare names it %r, serde_derive %r" % (rule, pos, w, g, exp),
                                 case={"source": text, "rule": rule, "position": pos, "ident": w}, impl=g, model=exp, failing_input=True)
